@@ -161,6 +161,26 @@ fn pnm_roundtrip_view(view: Slice2<Color3>, expect: &Img, r: &mut Report, tag: &
     }
 }
 
+/// Two images written one after the other into one stream are read back one after the other from one reader: reading
+/// an image consumes exactly that image.
+fn pnm_two_in_a_stream(view: Slice2<Color3>, expect: &Img, r: &mut Report, tag: &str, case: J) {
+    r.eval();
+    let mut bytes = vec![];
+    if !matches!(caught(|| write_ppm(&mut bytes, view)), Ok(Ok(()))) { return; }
+    let first_len = bytes.len();
+    if !matches!(caught(|| write_ppm(&mut bytes, view)), Ok(Ok(()))) { return; }
+    bytes.extend_from_slice(b"trailer");
+    let mut cur: &[u8] = &bytes;
+    let conv = |b: Buf2<Color3>| (b.width(), b.height(), b.data().iter().map(|c| c.0).collect::<Vec<_>>());
+    let a = caught(|| read_pnm(&mut cur).map(conv));
+    let consumed = bytes.len() - cur.len();
+    let b = caught(|| read_pnm(&mut cur).map(conv));
+    match (a, b) {
+        (Ok(Ok(x)), Ok(Ok(y))) if &x == expect && &y == expect && consumed == first_len && cur == b"trailer" => r.nontrivial(),
+        (a, b) => r.violation(format!("ppm-stream|{tag}"), format!("two copies of a {}x{} image in one stream: first read {:?} (consumed {consumed} of {first_len} bytes), second read {:?}, {} bytes left", expect.0, expect.1, a.map(|x| x.map(|i| (i.0, i.1)).map_err(|e| format!("{e:?}"))), b.map(|x| x.map(|i| (i.0, i.1)).map_err(|e| format!("{e:?}"))), cur.len()), case),
+    }
+}
+
 fn pnm_roundtrip_owned(w: u32, h: u32, px: &[[u8; 3]], r: &mut Report) {
     let case = obj! {"kind" => "pnm-rt-owned", "w" => w, "h" => h, "px" => hex(&px.concat())};
     let buf = match caught(|| Buf2::new_from((w, h), px.iter().map(|p| rgb(p[0], p[1], p[2])))) {
@@ -169,6 +189,7 @@ fn pnm_roundtrip_owned(w: u32, h: u32, px: &[[u8; 3]], r: &mut Report) {
     };
     let tag = format!("owned {w}x{h} {}", hex(&px.concat()));
     if px.len() > 16 || px.iter().flatten().fold(w.wrapping_mul(31) ^ h, |a, b| a.wrapping_mul(131).wrapping_add(*b as u32)) % 16 == 0 { pnm_roundtrip_file(buf.as_slice2(), &(w, h, px.to_vec()), r, &tag, case.clone()); }
+    if px.len() > 16 || px.iter().flatten().fold(h.wrapping_mul(31) ^ w, |a, b| a.wrapping_mul(131).wrapping_add(*b as u32)) % 8 == 0 { pnm_two_in_a_stream(buf.as_slice2(), &(w, h, px.to_vec()), r, &tag, case.clone()); }
     pnm_roundtrip_view(buf.as_slice2(), &(w, h, px.to_vec()), r, &tag, case);
 }
 
@@ -311,7 +332,7 @@ fn run_pnm(cfg: &Cfg) -> ! {
         rep.merge(r);
     }}
     // scale sentinels: images with extents beyond 255 (and a long single row), hostile bytes throughout
-    for (w, h) in [(300u32, 2u32), (2, 300), (257, 1), (1, 1000), (70, 70), (65535, 1), (65536, 1), (1, 65537), (70001, 2)] {
+    for (w, h) in [(300u32, 2u32), (2, 300), (257, 1), (1, 1000), (70, 70), (17, 5), (33, 31), (37, 37), (128, 3), (65535, 1), (65536, 1), (1, 65537), (70001, 2)] {
         let px: Vec<[u8; 3]> = (0..(w * h) as usize).map(|k| [HOSTILE[k % 9], HOSTILE[(k / 9 + 1) % 9], (k * 7 % 256) as u8]).collect();
         pnm_roundtrip_owned(w, h, &px, &mut rep);
         // the same data as P3 text and P6 binary must decode alike
